@@ -279,3 +279,50 @@ func CanonWeighted(real *graph.WeightedAuthorizationModelGraph) string {
 	}
 	return strings.Join(out, "\n")
 }
+
+// CompareReach compares only the KEY SETS of the node weight maps with the reach sets of the reference model.
+// It is used when the builder accepts a model the reference model rejects for an empty intersection / relation:
+// the reach sets are valid there, and C04's "a weight for exactly the user types that can reach it" can still
+// be decided (operators are matched by walking as in CompareWeighted).
+func CompareReach(real *graph.WeightedAuthorizationModelGraph, g *Graph) []Diff {
+	var diffs []Diff
+	rnodes := real.GetNodes()
+	redges := real.GetEdges()
+	seen := map[string]bool{}
+	var walk func(n *Node, realID string)
+	walk = func(n *Node, realID string) {
+		if seen[realID] {
+			return
+		}
+		seen[realID] = true
+		rn, ok := rnodes[realID]
+		if !ok {
+			return
+		}
+		if n.Kind != KType && n.Kind != KWild {
+			keys := map[string]bool{}
+			for k := range rn.GetWeights() {
+				keys[k] = true
+			}
+			if !sameSet(keys, n.R) && len(diffs) < 20 {
+				diffs = append(diffs, Diff{"weights", fmt.Sprintf("node %s carries weights for [%s], the user types that can reach it are [%s]", n.ID, FmtS(keys), FmtS(n.R))})
+			}
+		}
+		res := redges[realID]
+		fes := n.Edges()
+		if len(res) != len(fes) {
+			return
+		}
+		for i, fe := range fes {
+			if fe.To.IsOp() && res[i].GetTo() != nil && res[i].GetTo().GetNodeType() == graph.OperatorNode {
+				walk(fe.To, res[i].GetTo().GetUniqueLabel())
+			}
+		}
+	}
+	for _, id := range g.Order {
+		if n := g.Nodes[id]; !n.IsOp() {
+			walk(n, id)
+		}
+	}
+	return diffs
+}
